@@ -222,13 +222,15 @@ PROPS["C03"] = {
              "every count/length byte perturbed (0, 1, ff, +-1) at the first ~40 offsets, truncation at every offset, extension by 1..3 bytes, splices of two valid bodies, random bodies; every (additional-information id, length) and (terminal-parameter id, length) pair; "
              "each case decoded four ways on the Go side: fresh receiver + exact-capacity buffer, spare capacity poisoned with 00 and with ff, receiver that already parsed 0..3 other bodies (2 s watchdog); String() of every successful parse. non-trivial = class label (type:outcome[:reused])."),
     "technique": "Lean 4 proof of bounds safety for the modelled decoders (explicit out-of-range outcome; tables regenerated by go/ast) + four-way differential execution of all decoders on the Go side",
-    "level_text": ("Machine-checked Lean 4 theorems, for every byte string: the twelve fixed-layout Parse methods (field tables regenerated from the source, tiling obligation checked by the kernel) never index outside the body and accept exactly the bodies of the layout's length; "
-                   "the location decoder (0x0200, items of 0x0704) with all additional-information item decoders never indexes past its data (admissible-length table regenerated from the source); the frame decoder returns a message or an error. "
-                   "PARTIAL: the remaining decoders (variable-width strings, terminal parameters, 0x0100/0x0102/0x9208 ..., vendor extensions) have no Lean model; for ALL 47 decoders the Go side decides the property by differential execution on every run: "
-                   "no panic, no hang, same outcome and same value with and without spare capacity (two poisons) and with a reused receiver, String() total. Modelled decoders are additionally compared outcome-by-outcome with the Lean model."),
+    "level_text": ("Machine-checked Lean 4 theorems, for every byte string: 35 of the 47 registered decoders are modelled with every slice/index going through a checked accessor that yields `panic` where Go would, and none has a panic outcome: "
+                   "the twelve fixed-layout Parse methods (field tables regenerated from the source, tiling obligation checked by the kernel; they accept exactly the bodies of the layout's length); the location decoder (0x0200, items of 0x0704, 0x0801) with all additional-information item decoders "
+                   "(admissible-length table regenerated from the source); the frame decoder (its checked-access version equals the total model: the length guards cover every access); the attachment control frames 0x1210/0x1211/0x1212 for five dialects; "
+                   "0x0002, 0x8104, 0x9003, 0x0102, 0x0100, 0x8100, 0x9101, 0x9201, 0x9206, 0x1205, 0x9205, 0x9202, 0x8801, 0x1005 and 0x9208 for every version/dialect. "
+                   "PARTIAL: terminal parameters (0x0104/0x8103) and the five vendor extensions have no Lean model; receiver state and memory behind a slice are not expressible in the value model. For ALL 47 decoders the Go side decides the property by differential execution on every run: "
+                   "no panic, no hang, same outcome and same value with and without spare capacity (two poisons) and with a reused receiver, String() total. Modelled decoders are additionally compared outcome-by-outcome with the Lean model (about 58 000 bodies per quick run)."),
     "level_note": "Trusted: Lean kernel; extractors; the Go-side four-way oracle and its generators; memory behind a slice and receiver state are not expressible in the value model (decided by execution only). Open finding F03 (extension 0x66) is excluded by signature.",
     "trusted_base": _CODEC_TB,
-    "assumptions": ["decoders without a Lean model are decided by the Go-side oracle only (sampled)", "String() totality is observed, not proved"],
+    "assumptions": ["the 12 decoders without a Lean model are decided by the Go-side oracle only (sampled)", "String() totality is observed, not proved", "T0x0100.Parse: the protocol version is one the header decoder produces (2011/2013/2019)"],
     "shrink": True,
 }
 
